@@ -383,7 +383,7 @@ def conc_parse(t):
         elif not isf:
             bad = not (isinstance(got, int) and got == v)
         else:
-            bad = not (isinstance(got, float) and abs(Fraction(got) - v) <= 4 * F.U * max(v, 1))
+            bad = not (isinstance(got, float) and got == got and got not in (float('inf'), float('-inf')) and abs(Fraction(got) - v) <= 4 * F.U * max(v, 1))
     return dict(call='parse_hms(%r)' % t, observed=obs, input=[t], kind='C', required=str(sp)), bad
 
 
